@@ -200,25 +200,32 @@ func ruleR22(c *Ctx) *RuleResult {
 			itType = namedOf(itf.Signature.Results().At(0).Type())
 		}
 		for _, g := range gc.GCs {
-			for _, ef := range g.Effects {
-				if isStore(ef) && ef.Args[0].Op == "ia" && ef.Args[0].Args[0].Op == "makeslice" {
-					n++
-					var IT *Term
-					for _, e2 := range g.Effects {
-						if e2.Op == "do" && strings.HasSuffix(e2.Leaf, ").Next") {
-							IT = e2.Args[0]
-						}
+			for i, ef := range g.Effects {
+				var idx, val *Term // idx == nil: appended (position = order of the rounds)
+				switch {
+				case isStore(ef) && ef.Args[0].Op == "ia" && ef.Args[0].Args[0].Op == "makeslice":
+					idx, val = ef.Args[0].Args[1], ef.Args[1]
+				case ef.Op == "builtin" && ef.Leaf == "append" && len(ef.Args) == 2 && varargElem(g.Effects, i, ef.Args[1]) != nil:
+					val = varargElem(g.Effects, i, ef.Args[1])
+				default:
+					continue
+				}
+				n++
+				var IT *Term
+				for _, e2 := range g.Effects {
+					if e2.Op == "do" && strings.HasSuffix(e2.Leaf, ").Next") {
+						IT = e2.Args[0]
 					}
-					if IT == nil || itType == nil {
-						bad = append(bad, "a slot of the result is filled outside an iterator round")
-						continue
-					}
-					if op, ok := ownIteratorTerm(gc, IT); !ok || op != "0" {
-						bad = append(bad, "the iterator is not the heap's own")
-					}
-					if noEpoch(ef.Args[0].Args[1]) != iterMethodTerm(c, fn, itType, "Index", IT) || noEpoch(ef.Args[1]) != iterMethodTerm(c, fn, itType, "Value", IT) {
-						bad = append(bad, "the result is not values[it.Index()] = it.Value()")
-					}
+				}
+				if IT == nil || itType == nil {
+					bad = append(bad, "a slot of the result is filled outside an iterator round")
+					continue
+				}
+				if op, ok := ownIteratorTerm(gc, IT); !ok || op != "0" {
+					bad = append(bad, "the iterator is not the heap's own")
+				}
+				if (idx != nil && noEpoch(idx) != iterMethodTerm(c, fn, itType, "Index", IT)) || noEpoch(val) != iterMethodTerm(c, fn, itType, "Value", IT) {
+					bad = append(bad, "the result is not values[it.Index()] = it.Value()")
 				}
 			}
 		}
@@ -422,6 +429,28 @@ func ruleR23(c *Ctx) *RuleResult {
 
 // ---- R24 HASH ----
 
+// slotFills: the elements a guarded command puts into a result slice — a store into a slot of a made slice (consecutive when
+// the index is the loop counter) or an append of exactly one element.
+type slotFill struct {
+	val         *Term
+	consecutive bool
+}
+
+func slotFills(g *GC) []slotFill {
+	var out []slotFill
+	for i, ef := range g.Effects {
+		switch {
+		case isStore(ef) && ef.Args[0].Op == "ia" && ef.Args[0].Args[0].Op == "makeslice":
+			out = append(out, slotFill{ef.Args[1], ef.Args[0].Args[1].Op == "φ"})
+		case ef.Op == "builtin" && ef.Leaf == "append" && len(ef.Args) == 2:
+			if el := varargElem(g.Effects, i, ef.Args[1]); el != nil {
+				out = append(out, slotFill{el, true})
+			}
+		}
+	}
+	return out
+}
+
 func ruleR24(c *Ctx) *RuleResult {
 	p := c.p
 	r := &RuleResult{Rule: "R24", Title: "HASH: the hash containers are exactly Go's map (Put/Add = assignment, Remove = delete, Get/Contains = lookup)", Floor: 7}
@@ -479,16 +508,14 @@ func ruleR24(c *Ctx) *RuleResult {
 				which = "2"
 			}
 			for _, g := range c.GC(fn).GCs {
-				for _, ef := range g.Effects {
-					if isStore(ef) && ef.Args[0].Op == "ia" && ef.Args[0].Args[0].Op == "makeslice" {
-						n++
-						v := ef.Args[1]
-						if !(v.Op == "ext" && v.Leaf == which && v.Args[0].Op == "next" && hasField(v.Args[0], "m")) {
-							bad = append(bad, nm+" does not store the current map "+map[string]string{"1": "key", "2": "value"}[which])
-						}
-						if ef.Args[0].Args[1].Op != "φ" {
-							bad = append(bad, nm+" does not fill consecutive slots")
-						}
+				for _, fl := range slotFills(g) {
+					n++
+					v := fl.val
+					if !(v.Op == "ext" && v.Leaf == which && v.Args[0].Op == "next" && hasField(v.Args[0], "m")) {
+						bad = append(bad, nm+" does not store the current map "+map[string]string{"1": "key", "2": "value"}[which])
+					}
+					if !fl.consecutive {
+						bad = append(bad, nm+" does not fill consecutive slots")
 					}
 				}
 			}
